@@ -48,7 +48,7 @@ func main() {
 		},
 		Plan:        plan,
 		Run:         run,
-		MustObserve: []string{"pauses", "pauses_requested_while_a_handler_was_running", "pauses_while_run_active", "pauses_held_across_run_start", "pauses_after_run_returned", "continues_followed_by_more_handling", "samples_taken_under_pause", "events_handled"},
+		MustObserve: []string{"pauses", "pauses_requested_while_a_handler_was_running", "pauses_while_run_active", "pauses_held_across_run_start", "pauses_after_run_returned", "continues_followed_by_more_handling", "samples_taken_under_pause", "events_handled", "second_concurrent_pause_requests_checked", "second_concurrent_pause_requests_while_a_handler_was_running"},
 		RaceKey:     raceKey,
 		BatchTimeout: func(tier string) time.Duration {
 			if tier == "thorough" {
@@ -321,6 +321,26 @@ func run(b kit.Batch, r *kit.R) {
 		// one Pause / sample / Continue cycle; the verdict is the logical sample.
 		cycle := func(when string, pre func()) {
 			mid := rr.inHandler.Load() > 0
+			// serial engine (Pause is a flag there; the parallel engine's Pause is a lock a second caller would
+			// block on until the first Continue): in a third of the cycles a second goroutine requests a pause
+			// at the same moment. Nobody calls Continue before both have sampled, so no handler may be
+			// executing when either call returns.
+			var second chan struct{}
+			var in2, s2 int64
+			if prm.Engine == "serial" && rng.Intn(3) == 0 {
+				second = make(chan struct{})
+				ready := make(chan struct{})
+				go func() {
+					close(ready)
+					rr.eng.Pause()
+					in2, s2 = rr.inHandler.Load(), rr.started.Load()
+					close(second)
+				}()
+				<-ready
+				if rng.Intn(2) == 0 {
+					runtime.Gosched()
+				}
+			}
 			rr.eng.Pause()
 			in0, s0 := rr.inHandler.Load(), rr.started.Load()
 			if in0 != 0 {
@@ -350,6 +370,21 @@ func run(b kit.Batch, r *kit.R) {
 			}
 			_ = rr.inspectUnderPause()
 			obs = append(obs, pauseObs{when: when, midHandler: mid, startedAt: s0})
+			if second != nil {
+				<-second
+				r.Count("second_concurrent_pause_requests_checked", 1)
+				if mid {
+					r.Count("second_concurrent_pause_requests_while_a_handler_was_running", 1)
+				}
+				if in2 != 0 {
+					fail("c05/serial/handler-running-when-second-pause-returned",
+						"serial engine (%s, GOMAXPROCS=%d): a second, concurrent Pause() returned while %d handler(s) were still executing (started=%d; pause %s)",
+						mode, runtime.GOMAXPROCS(0), in2, s2, when)
+				} else if now := rr.started.Load(); s2 != now {
+					fail("c05/serial/handler-started-while-paused",
+						"serial engine: %d handler(s) started after a second, concurrent Pause() had returned and before any Continue() (started %d -> %d)", now-s2, s2, now)
+				}
+			}
 			rr.eng.Continue()
 		}
 
